@@ -139,7 +139,14 @@ func createProcess(p *Process, isMethod bool) {
 	case "err":
 		//p.Stderr.Writeln([]byte("Invalid usage of named pipes: stderr defaults to <err>."))
 	case "out":
-		p.Stderr = p.Next.Stdin
+		// <!out> joins stderr to wherever this command's stdout goes by default:
+		// the next command's stdin when piped, otherwise the stdout of the block.
+		// (p.Next is the next command of the block even when no pipe connects
+		// them, or the parent for the last command; its stdin is not ours to
+		// write.) When `?` has already piped stderr to the next command it stays.
+		if p.Stderr != p.Next.Stdin {
+			p.Stderr = p.Stdout
+		}
 	default:
 		pipe, err := GlobalPipes.Get(p.NamedPipeErr)
 		if err == nil {
